@@ -59,7 +59,8 @@ def h_scan(cx):
     cx.ok('partial-read classes %s (reads %s, other uses %s, length tests %s)' % ('justified' if ok else 'NOT justified: byte-exact fallback', sorted(reads), bad[:3], sorted(lens)))
 
 
-HARNESSES = dict(read=h_read, scan=h_scan)
+from props import sfcf  # noqa
+HARNESSES = dict(read=h_read, scan=h_scan, sfcf_cut=sfcf.h_cut)
 
 
 def jobs(tier, seed):
@@ -79,6 +80,26 @@ def jobs(tier, seed):
     add(fmt='ms5', reps=['r0', 'r1'], nrec=[7, 5], first=[1, 1], step=[1, 1], truncate=0, p=dict(tmax=1, corr='g1'))
     add(fmt='sfqcd', reps=['r0'], nrec=[7], first=[1], step=[1], truncate=0, trunc_from=5, p=dict(ncs=1, tmax=1, index_aim=0))
     add(fmt='sfqcd', reps=['r0'], nrec=[6], first=[1], step=[1], truncate=0, trunc_from=5, p=dict(ncs=1, tmax=2, index_aim=1, zeuthen=True))
+    # sfcf text files cut at every byte: first / last file of the set (compact, folder layout), replica files of the appended layout
+    R2 = dict(reps=['r0', 'r1'], cfgs=[[1, 2, 3, 4, 5], [2, 4, 6, 8, 10, 12]])
+    W = 120
+
+    def cut(layout, target, size, req=('f_A', 0, None), names=('f_A', 'f_1'), lo=0, **kw):
+        for a in range(lo, size, W):
+            J.append(dict(harness='sfcf_cut', params=dict(layout=layout, which=target, names=list(names), req=list(req), lo=a, hi=a + W, **dict(R2, **kw)), opts=dict(maxpaths=2 * W + 50, tol=1e-13, abs_scale=1.0, replay_keep=['L'])))      # stored numbers are read back bit for bit: replay compares almost exactly
+    cut('c', 'data_c_r0/data_c_r0_n1', 1080)
+    cut('c', 'data_c_r1/data_c_r1_n12', 1080, req=('f_1', 0, 1))
+    cut('c', 'data_c_r0/data_c_r0_n3', 1080, req=('f_A', 1, None))
+    cut('o', 'test_r0/cfg1/f_A', 720)
+    cut('o', 'test_r1/cfg6/f_A', 720, req=('f_A', 1, None))
+    cut('o', 'test_r0/cfg5/f_1', 720, req=('f_1', 0, 0))
+    cut('a', 'data_a_r0.f_A', 3600)
+    cut('a', 'data_a_r1.f_A', 4300, lo=2600)
+    cut('a', 'data_a_r1.f_1', 4100, lo=2200, req=('f_1', 0, 0))
+    if tier == 'thorough':
+        cut('c', 'data_c_r1/data_c_r1_n2', 1500, req=('F_V0', 0, 1), names=('f_A', 'f_1', 'F_V0'), T=3)
+        cut('o', 'test_r1/cfg2/F_V0', 900, req=('F_V0', 0, 0), names=('f_A', 'f_1', 'F_V0'), T=3)
+        cut('a', 'data_a_r1.f_A', 2600)
     if tier == 'thorough':
         add(fmt='rwms16', reps=['r0', 'r1', 'r2'], nrec=[5, 8, 5], first=[1, 1, 1], step=[1, 1, 1], truncate=1, p=dict(nrw=2, nfct=1, nsrc=2))
         add(fmt='qtop', reps=['r0'], nrec=[9], first=[1], step=[1], truncate=0, p=dict(nn=2, tmax=3, index_aim=2))
@@ -101,11 +122,11 @@ CANARIES = [
 ]
 
 META = dict(
-    explanation='C18 (openQCD binary formats): the readers of C17 run on typed buffers whose length L is a symbolic integer in [0, len-1]; every read is cut at L (full / empty / partial; partial lengths individually '
+    explanation='C18 (openQCD binary formats and sfcf text formats): sfcf: one file of a synthetic set (props/sfcf.py) is cut after L bytes, L a symbolic integer that the solver enumerates byte by byte (one path per offset, the stored numbers stay symbolic: a damaged token parses to a concrete number that can never equal its symbol); the reader must raise or return exactly the stored numbers of the complete records. Binary: the readers of C17 run on typed buffers whose length L is a symbolic integer in [0, len-1]; every read is cut at L (full / empty / partial; partial lengths individually '
                 'for reads <= 16 bytes, one class otherwise - justified by an AST scan of the current source showing that read results only flow into struct.unpack, len(t) < 4 and truthiness). On every path the outcome '
                 'must be an exception or exactly the observables of the complete records preceding the cut (the path must determine their number; all of them must be present; never fewer than five).',
-    bounds='1-2 (thorough 3) replicas, the truncated file holds 5-9 records; record layouts with 1-2 factors / sources / flow times; all truncation lengths 0..len-1 are covered by the path partition.',
-    outside=['truncated json.gz / xml.gz / csv.gz exports (gzip, rapidjson, lxml, pandas decide): not applicable', 'truncated sfcf text files', 'real file system semantics beyond short reads at end of file'],
-    stubs=['typed-buffer file model with symbolic length', 'numpy shim', 'exp uninterpreted'],
+    bounds='1-2 (thorough 3) replicas, the truncated file holds 5-9 records; record layouts with 1-2 factors / sources / flow times; all truncation lengths 0..len-1 are covered by the path partition. sfcf: 2 replicas x 5-6 configurations, T = 2 (thorough 3); every byte of 3 files of the compact layout, 3 of the folder layout, and of the replica files of the appended layout (first replica completely, second replica from the fifth chunk on).',
+    outside=['truncated json.gz / xml.gz / csv.gz exports (gzip, rapidjson, lxml, pandas decide): not applicable', 'real file system semantics beyond short reads at end of file'],
+    stubs=['typed-buffer file model with symbolic length', 'sfcf: in-memory text tree, float -> token table', 'numpy shim', 'exp uninterpreted'],
     assumptions=[],
 )
